@@ -106,7 +106,7 @@ def _child(conn, eng_name: str, seed: int, tier: str, indices, timeout: float) -
             # every run in its own pristine fork: what a run observes depends on its own workload only, never on
             # process-global state of the code under test left behind by an earlier run of the same worker
             for i in indices:
-                merge_run(agg, in_fork(eng.run_one, seed, i, tier, timeout=timeout))
+                merge_run(agg, isolated_run(eng, eng_name, seed, i, tier, timeout))
         else:
             for i in indices:
                 merge_run(agg, eng.run_one(seed, i, tier))
@@ -203,6 +203,30 @@ def in_fork(fn, *args, timeout: float = 600):
     if kind != "ok":
         raise HarnessError(str(payload)[-1500:])
     return payload
+
+
+def runs_optimized(eng, seed: int, index: int) -> bool:
+    """A seeded share of the runs of some engines executes in a `python -O` interpreter (asserts compiled away,
+    __debug__ false): an interpreter configuration real deployments use."""
+    share = getattr(eng, "OPTIMIZE_SHARE", 0)
+    return share > 0 and H(seed, eng.PROPERTY, index, "python -O") % 1000 < share * 1000
+
+
+def isolated_run(eng, eng_name: str, seed: int, index: int, tier: str, timeout: float) -> dict:
+    if not runs_optimized(eng, seed, index):
+        return in_fork(eng.run_one, seed, index, tier, timeout=timeout)
+    import base64
+    env = dict(os.environ, VERIF_SEED=str(seed), VERIF_INNER="1")
+    cmd = [sys.executable, "-O", "-c", "from simfcp.kit.driver import main; main()", eng.PROPERTY, "--tier", tier, "--run-one", str(index)]
+    p = subprocess.run(cmd, env=env, cwd=str(VERIF_ROOT), capture_output=True, text=True, timeout=timeout)
+    lines = [l for l in p.stdout.splitlines() if l.startswith("RUNRESULT ")]
+    if p.returncode != 0 or not lines:
+        raise HarnessError(f"python -O run {index} failed ({p.returncode}): {p.stderr[-800:]}")
+    r = pickle.loads(base64.b64decode(lines[-1][10:]))
+    r.setdefault("probes", Counter())["run_under_python_O"] += 1
+    for v in r.get("violations", ()):
+        v["workload"]["interpreter"] = "python -O"      # the replay must run under the same interpreter configuration
+    return r
 
 
 def _reproduces(eng_name: str, v: dict) -> bool:
@@ -350,6 +374,7 @@ def main(argv=None) -> None:
     tier = os.environ.get("VERIF_TIER", "quick")
     replay = None
     digests_for = None
+    run_one_idx = None
     while argv:
         a = argv.pop(0)
         if a == "--tier":
@@ -358,6 +383,8 @@ def main(argv=None) -> None:
             replay = argv.pop(0)
         elif a == "--digests":
             digests_for = [int(x) for x in argv.pop(0).split(",") if x]
+        elif a == "--run-one":
+            run_one_idx = int(argv.pop(0))
         else:
             print(f"unknown argument {a}")
             sys.exit(2)
@@ -373,12 +400,19 @@ def main(argv=None) -> None:
     eng_name = ENGINES[prop]
     try:
         eng = importlib.import_module(eng_name)
+        if run_one_idx is not None:
+            import base64
+            if hasattr(eng, "preload"):
+                eng.preload()
+            r = eng.run_one(seed, run_one_idx, tier)
+            print("RUNRESULT " + base64.b64encode(pickle.dumps(r)).decode())
+            sys.exit(0)
         if digests_for is not None:
             if hasattr(eng, "preload"):
                 eng.preload()
             out = {}
             for i in reversed(digests_for):
-                out[i] = (in_fork(eng.run_one, seed, i, tier) if getattr(eng, "ISOLATE_RUNS", False)
+                out[i] = (isolated_run(eng, eng_name, seed, i, tier, 900) if getattr(eng, "ISOLATE_RUNS", False)
                           else eng.run_one(seed, i, tier))["digest"]
             print("DIGESTS " + json.dumps(out))
             sys.exit(0)
@@ -399,6 +433,11 @@ def do_replay(eng, prop: str, path: str) -> int:
     body = json.loads(Path(path).read_text())
     if body.get("property") != prop:
         raise HarnessError(f"replay file is for {body.get('property')}, not {prop}")
+    if body["workload"].get("interpreter") == "python -O" and not sys.flags.optimize:
+        # recorded under `python -O`: replay under the same interpreter configuration
+        p = subprocess.run([sys.executable, "-O", "-c", "from simfcp.kit.driver import main; main()", prop, "--replay", path],
+                           cwd=str(VERIF_ROOT))
+        return p.returncode
     vs = eng.replay(body["workload"])
     same = [v for v in vs if v["class"] == body["class"]]
     print(f"replay of {path}: seed={body.get('seed')} run={body.get('run')} class={body['class']}")
@@ -468,6 +507,10 @@ def do_batch(eng, eng_name: str, prop: str, tier: str, seed: int) -> int:
         reported += 1
         # prefer a witness that reproduces from its own explicit workload in a pristine process
         chosen = None
+        nruns = len(vs)
+        if v["workload"].get("interpreter") == "python -O":
+            chosen = v              # observed under python -O; the witness search below runs in this (non -O) interpreter
+            vs = []
         for cand in vs[:5]:
             try:
                 if in_fork(_reproduces, eng_name, cand, timeout=300):
@@ -481,13 +524,13 @@ def do_batch(eng, eng_name: str, prop: str, tier: str, seed: int) -> int:
                   f"the replay file carries the first witness unminimised")
         else:
             v = chosen
-            if hasattr(eng, "minimise"):
+            if hasattr(eng, "minimise") and v["workload"].get("interpreter") != "python -O":
                 try:
                     v = in_fork(_minimise, eng_name, v, timeout=240)
                 except HarnessError as e:
                     print(f"  (minimiser failed, reporting unminimised: {str(e)[-300:]})")
         p = write_replay(prop, eng_name, seed, v)
-        print(f"  violation class={cls} signature={sig} runs={len(vs)} first_run={v.get('run')} :: {v.get('message', '')[:400]}")
+        print(f"  violation class={cls} signature={sig} runs={nruns} first_run={v.get('run')} :: {v.get('message', '')[:400]}")
         print(f"VIOLATION property={prop} replay={p}")
     zero = [k for k in getattr(eng, "EXPECTED_PROBES", {}).get(tier, ()) if merged.probes.get(k, 0) == 0]
     if zero:
